@@ -21,7 +21,10 @@ import (
 // input:  gate op oldpod newpod        (coq/C13/Codec.v dec_validate)
 // observable: [allowed mask]           mask = which rules rejected (coq/C13/Model.v E_*)
 func vtC13vExec(in []int64) []int64 {
-	d := &vtC13Dec{in: in}
+	if len(in) == 0 || in[0] != 101 { // not an input of this stream
+		return []int64{-1}
+	}
+	d := &vtC13Dec{in: in[1:]}
 	gate := d.next() != 0
 	opCode := d.next()
 	oldPod := d.pod()
@@ -148,7 +151,7 @@ func vtC13vGen(r *rand.Rand, i int) (string, []int64) {
 	if r.Intn(5) == 0 {
 		gate = 1
 	}
-	in := []int64{gate, op}
+	in := []int64{101, gate, op}
 	in = append(in, oldPod...)
 	in = append(in, newPod...)
 	return style, in
